@@ -49,7 +49,11 @@ def gen_tree(ctx):
     for n, t in fs.items():
         if rnd.random() < 0.4:
             t += '[Install]\n' + rnd.choice(['WantedBy=default.target\n', 'WantedBy=a.target b.target\nAlias=foo.service\n', 'RequiredBy=x.service\nAlias=sub/dir/y.service\n',
-                                             'Alias=../escape.service /abs/x.service\n', 'DefaultInstance=i1\nWantedBy=m.target\n'])
+                                             'Alias=../escape.service /abs/x.service\n', 'DefaultInstance=i1\nWantedBy=m.target\n',
+                                             # an alias that is the name of the generated service itself (ignored: the file stays a file)
+                                             'Alias=' + n.rsplit('.', 1)[0] + {'container': '', 'kube': '', 'volume': '-volume', 'network': '-network', 'image': '-image',
+                                                                               'build': '-build', 'pod': '-pod'}.get(n.rsplit('.', 1)[-1], '') + '.service\nWantedBy=default.target\n',
+                                             'DefaultInstance=one\nAlias=' + n.rsplit('.', 1)[0] + '.service extra.service\n'])
         if rnd.random() < 0.1:
             t = rnd.choice(['[Broken\n', 'NoSection=1\n', '[Container]\nK\n']) + t
         files['src/' + n] = t
